@@ -1,6 +1,6 @@
 """C13 -- .g2o export followed by import is lossless (writer o reader = id on the text model)."""
 from ..poly import Poly
-from ..interp import Arr, Pose, Obj, ClassRef, sym_pose, PathRaise
+from ..interp import ga, sa, Arr, Pose, Obj, ClassRef, sym_pose, PathRaise
 from ..algebra import run_obligation as _run_obligation, run_tasks, record, ObFail, CDIM
 from .c18 import distinct_names_hook
 
@@ -62,8 +62,8 @@ def landmark_roundtrip(pcls):
         params = {}
         if pcls == "PoseSE3":
             p = build_param(it, "G2OParameterSE3Offset", "p")
-            params[it.hashable(p.fields["key"], None)] = p
-            offset, oid = p.fields["value"], p.fields["key"][1]
+            params[it.hashable(ga(p, "key"), None)] = p
+            offset, oid = ga(p, "value"), ga(p, "key")[1]
         else:
             offset, oid = sym_pose("PoseSE2", "off", unit=True), Poly.var("oid")
         e = build_landmark(it, pcls, "e", v1, v2, offset, oid)
@@ -122,18 +122,18 @@ def graph_roundtrip(cycles):
         p3 = build_param(it, "G2OParameterSE3Offset", "p3")
         ident = it.call_classmethod(ClassRef("PoseSE2"), "identity", [])
         edges = [build_odometry(it, "PoseSE2", "e0", vs[0], vs[4]),
-                 build_landmark(it, "PoseSE3", "e1", vs[2], vs[3], p3.fields["value"], p3.fields["key"][1]),
+                 build_landmark(it, "PoseSE3", "e1", vs[2], vs[3], ga(p3, "value"), ga(p3, "key")[1]),
                  build_odometry(it, "PoseSE3", "e2", vs[5], vs[2]),
                  build_landmark(it, "PoseSE2", "e3", vs[4], vs[1], ident, Poly.const(0)),
                  build_odometry(it, "PoseSE2", "e4", vs[4], vs[0])]
         g = it.construct("Graph", [list(edges), list(vs)])
-        g.fields["_g2o_params"] = {it.hashable(p2.fields["key"], None): p2, it.hashable(p3.fields["key"], None): p3}
+        sa(g, "_g2o_params", {it.hashable(ga(p2, "key"), None): p2, it.hashable(ga(p3, "key"), None): p3})
         cur = g
         for c in range(cycles):
             path = "cycle%d.g2o" % c
             it.call_method(cur, "to_g2o", [path])
             cur = it.call_classmethod(ClassRef("Graph"), "from_g2o", [path])
-        v2, e2 = cur.fields.get("_vertices"), cur.fields.get("_edges")
+        v2, e2 = ga(cur, "_vertices", None), ga(cur, "_edges", None)
         if not isinstance(v2, list) or len(v2) != len(vs):
             raise ObFail("%d vertices exported, %s read back" % (len(vs), len(v2) if isinstance(v2, list) else v2))
         if not isinstance(e2, list) or len(e2) != len(edges):
@@ -143,11 +143,11 @@ def graph_roundtrip(cycles):
         for k, (a, b) in enumerate(zip(e2, edges)):
             same_edge(it, a, b, "edge #%d of the graph after %d export/import cycle(s)" % (k, cycles))
         no_int_through_float(it)
-        pr = cur.fields.get("_g2o_params")
+        pr = ga(cur, "_g2o_params", None)
         if not isinstance(pr, dict) or len(pr) != 2:
             raise ObFail("offset parameters are not all read back (%r)" % (pr,))
         for p in (p2, p3):
-            q = pr.get(it.hashable(p.fields["key"], None))
+            q = pr.get(it.hashable(ga(p, "key"), None))
             if q is None:
                 raise ObFail("parameter %s is not read back under its key" % p.cls)
             same_param(it, q, p, "parameter %s after export/import" % p.cls)
